@@ -142,6 +142,7 @@ func genMemberWorkspace(r *lib.Rng) map[string]string {
 		{"local rec2 = {}", "rec2.a, rec2.b = two()", "print(rec2.a, rec2.b)"},
 		{"local deep = { l1 = { l2 = { l3 = 1 } } }", "deep.l1.l2.l3 = deep.l1.l2.l3 + 1", "print(deep.l1.l2, deep.l1)"},
 		{"local u, w = two()", "local function uses()", "  u, w = two()", "  return u + w", "end", "print(uses)"},
+		{"local Obj = {}", "Obj.count = 0", "function Obj:inc(step)", "  self.count = self.count + step", "  local cb = function(k)", "    self.count = self.count + k", "    return self.count", "  end", "  return cb(step)", "end", "print(Obj.count, Obj)"},
 	}
 	r.Shuffle(len(blocks), func(i, j int) { blocks[i], blocks[j] = blocks[j], blocks[i] })
 	for _, b := range blocks[:3+r.Intn(4)] {
@@ -298,7 +299,7 @@ func c12Multi(res *lib.Result, dir string, files map[string]string, tag string, 
 				}
 			}
 		}
-		if hov != "" && hov != "null" && d.ok {
+		if hov != "" && hov != "null" && d.ok && p.name != "self" { // hovering self shows the table it stands for
 			if !strings.Contains(hov, p.name) {
 				problems = append(problems, fmt.Sprintf("(iv) hover %q does not name the identifier", lib.Trunc(hov, 80)))
 			}
